@@ -162,14 +162,16 @@ REG.assume_note("generators (step extraction): between two steps the environment
                 "trailing `return` are dropped; a step = one pass through the `while True:` body from the top")
 
 
+_GHOST_ID = 1000000
+
+
 def _snap(name="raw", ghost="raw0", via=None):
     """ghost snapshot of a buffer at the start of the step: a pre-state list object the code cannot reach (distinct
     from the buffer; fresh objects have negative ids), with the buffer's length and contents.  No heap write is
     needed, which keeps the terms small."""
     def setup(E):
         lv = via(E) if via else E.frame.env[name]
-        g = E.fresh("g_" + ghost, z3.IntSort())
-        E.assume(g > 0)
+        g = z3.IntVal(_GHOST_ID)            # a pre-state object of its own (no parameter is pinned to this id)
         E.assume(g != lv.t)
         gl = ListV(g, lv.et)
         E.assume(E.llen(gl) == E.llen(lv))
@@ -355,6 +357,14 @@ def _sub(E, lv, a, b, kind=None):
     arr = E.fresh("sub", src.sort())
     k = E.fresh("ksub", z3.IntSort())
     E.assume(z3.ForAll([k], z3.Select(arr, k) == z3.simplify(z3.Select(src, k + a)), patterns=[z3.Select(arr, k)]))
+    # the same axiom re-indexed, triggered by a read of the SOURCE: positions the specification names in the source
+    # (ghost positions) become positions of the new list, so that the facts about the new list fire there too
+    back = z3.simplify(z3.Select(src, k))
+    if z3.is_app_of(back, z3.Z3_OP_SELECT):
+        try:
+            E.assume(z3.ForAll([k], back == z3.Select(arr, k - a), patterns=[back]))
+        except z3.Z3Exception:
+            pass
     return E.new_list(lv.et, b - a, [arr], kind=kind or lv.kind)
 
 
@@ -530,6 +540,23 @@ hdr_last_is.native = _n_hdr_last_is
 
 
 # ========================================================================================== parseLeader
+def _pin(**ids):
+    """setup: the reference values of the named parameter objects are fixed to distinct concrete positive ids
+    (without loss of generality: no code depends on an id, and the pinned parameters are objects of different Python
+    types or are stated distinct).  Heap reads through a concrete id simplify syntactically, which keeps the
+    obligations small; the symbolic parameter constant is kept equal to the id for counterexample extraction."""
+    def setup(E):
+        for nm, c in ids.items():
+            v = E.frame.env.get(nm)
+            if isinstance(v, ListV) and not z3.is_int_value(v.t):
+                E.assume(v.t == c)
+                E.frame.env[nm] = ListV(z3.IntVal(c), v.et, nn=v.nn, kind=v.kind)
+            elif isinstance(v, RefV) and not z3.is_int_value(v.t):
+                E.assume(v.t == c)
+                E.frame.env[nm] = RefV(z3.IntVal(c), v.cls, nn=v.nn)
+    return setup
+
+
 def _bytearray_kind(*names):
     def setup(E):
         for nm in names:
@@ -639,6 +666,14 @@ LEADER_RAISES = dict(LINE_RAISES)
 LEADER_RAISES["ValueError"] = ["%s and pstar > 0 and cpos == pstar" % HAS]       # malformed: no colon at all (C32)
 LEADER_RAISES["HTTPException"] = ["hdr_size(headers) > MAX_HEADERS"]
 
+def _pin_logs(E):
+    h = E.frame.env["headers"]
+    for attr, c in (("log_k", 1000003), ("log_v", 1000004)):
+        lv = E.rd_field(h, attr)
+        E.assume(lv.t == c)
+        E.wr_field(h, attr, ListV(z3.IntVal(c), lv.et))
+
+
 def _cut_line(E):
     """proof cut after `line = raw[:index]`: the code's index is the ghost position pstar and its eol is the longest
     mark there - proved here (small context), then available to the obligations that follow the header parsing"""
@@ -647,7 +682,8 @@ def _cut_line(E):
 
 
 contract(F, "parseLeader", "C29", tags=("step2", "logic=AUFLIA"), ghost={"after": {"line = raw[:index]": _cut_line}},
-         params=dict(raw=BA, headers=Ref("lodict")), setup=_seq(_line_ghosts(), _bytearray_kind("raw")),
+         params=dict(raw=BA, headers=Ref("lodict")),
+         setup=_seq(_pin(raw=1000001, headers=1000002), _line_ghosts(), _bytearray_kind("raw"), _pin_logs),
          assumes=[LOG_DISTINCT],
          modifies=["raw[*]", "headers.log_k[*]", "headers.log_v[*]", "headers.n"],
          ensures=LEADER_ENSURES, raises=LEADER_RAISES,
